@@ -355,6 +355,13 @@ func cfgRemote(cfg *simrt.Config, tier string) {
 	cfg.MaxSteps = 600_000
 }
 
+// cfgRemoteSkip also lets the clock jump while tasks are runnable (stalls
+// during the dial back-off).
+func cfgRemoteSkip(cfg *simrt.Config, tier string) {
+	cfgRemote(cfg, tier)
+	cfg.TimeSkip = true
+}
+
 func setup(rc *core.RunCtx) *World {
 	g := simrt.G()
 	b := []int64{4096, 1, 2, 3, 5}[g.IntN(5)]
